@@ -7,6 +7,7 @@ Property theorems only, in sub-modules (all in `namespace Retro.Props.C16`):
   * `Props/C16/Field.lean`      float conversions over an arbitrary ordered field: in range, grays, hue 1 = hue 0
   * `Props/C16/RoundTripF.lean` float round trip is exact over an arbitrary ordered field
   * `Props/C16/Inverse.lean`    HSL -> RGB -> HSL is the identity on canonical HSL colours (ordered field)
+  * `Props/C16/Access.lean`     channel accessors, gray, Linear::zero, add(sub) cancels, gamma constants
   * `Props/C16/Reference.lean`  the sextant code equals the independent CSS closed form used by the oracle
 -/
 import Retro.Props.C16.Int8
@@ -16,3 +17,4 @@ import Retro.Props.C16.Field
 import Retro.Props.C16.RoundTripF
 import Retro.Props.C16.Reference
 import Retro.Props.C16.Inverse
+import Retro.Props.C16.Access
